@@ -15,7 +15,6 @@ library; Python leaves evaluated by eval).  For (4) the Expression node of the r
 
 import itertools
 import json
-import os
 import time
 import zlib
 
@@ -71,7 +70,8 @@ BOUNDS = {
         "90 spacings of the filter part x 22 expressions; 15 filter-argument spellings x 5; 8 x 6 junctions x 4 x 2; inner spaces; 8 f-string forms",
     },
     "thorough": {
-        "pipe": "lists of <=3 x 6 default_filters x 6 page settings x 5 positions x 5 values; 4-filter lists containing n or >=2 user filters x 3 default_filters x 3 page settings x body x 2 values",
+        "pipe": "lists of <=2 x 6 default_filters x 6 page settings x 5 positions x 5 values; 3-filter lists x 6 default_filters x 5 page settings x positions {body, def, call} x 5 values; "
+        "4-filter lists containing n or >=2 user filters x 3 default_filters x 3 page settings x body x 2 values",
         "tagf": "filter= lists of <=3 x 7 constructs (quick's + def called with |n) x buffer_filters 3/1 x 6 (D,P) settings x 2 values; buffered def without filter= as quick",
         "bind": "as quick",
         "spell": "quick with 4 filter parts for atoms and depth 1, depth 2 over 4 atoms x 40^2 x 2; + atoms with content 3 x 2; 26 core atoms x 40^2 wrappers; 2 atoms x 40^3 wrappers",
@@ -192,9 +192,13 @@ def gen_pipe(tier, seed):
     quick = tier == "quick"
     full_k, sub_k = (2, 3) if quick else (3, 4)
     for L in lists_upto(F, full_k):
-        # quick: the two block positions only for lists of <= 1 filter
-        poss = POSITIONS if not quick or len(L) <= 1 else ["body", "def"]
-        Ps = P_ALL if not quick or len(L) <= 1 else P_ALL[:5]
+        longest = len(L) == full_k
+        # lists of the largest length: fewer positions, and without the page setting whose n comes last
+        if quick:
+            poss = ["body", "def"] if longest else POSITIONS
+        else:
+            poss = ["body", "def", "call"] if longest else POSITIONS
+        Ps = P_ALL[:5] if longest else P_ALL
         for D in D_ALL:
             for P in Ps:
                 for pos in poss:
@@ -300,9 +304,9 @@ def gen_spell(tier, seed):
         for src, tags in items:
             for suffix, filters in suffixes:
                 raw = src + suffix
-                if (fam, raw) in seen:
+                if raw in seen:
                     continue
-                seen.add((fam, raw))
+                seen.add(raw)
                 yield spell_prog(src, suffix, filters), (0,), fam, tags
     core = c02_spell.core2()[:4]
     for src, tags in core:
@@ -359,20 +363,6 @@ def nontrivial(prog):
 
 def spell_nontrivial(src):
     return any(c in src for c in "|}{#'\"")
-
-
-def observe(text, kw, ctx):
-    """-> ("ok", output) | ("exc", class name, message)"""
-    from mako.template import Template
-
-    try:
-        t = Template(text, **kw)
-    except BaseException as e:  # noqa
-        return ("exc", type(e).__name__, str(e)[:300], "compile")
-    try:
-        return ("ok", t.render_unicode(**ctx))
-    except BaseException as e:  # noqa
-        return ("exc", type(e).__name__, str(e)[:300], "render")
 
 
 signature = c02_sig.signature
@@ -632,4 +622,4 @@ def corpus(limit=400):
     return out
 
 
-READY = False
+READY = True
